@@ -12,6 +12,18 @@ def main():
     ap.add_argument("--jobs", type=int, default=None)
     a = ap.parse_args()
     seed = int(os.environ.get("VERIF_SEED", "0"))
+    # start jax with a one-CPU affinity mask (small XLA thread pools), then restore the mask -- see vf.core._pin
+    try:
+        full = os.sched_getaffinity(0)
+        cpus = sorted(full)
+        os.sched_setaffinity(0, {cpus[os.getpid() % len(cpus)]})
+        from vf import env  # noqa: F401
+        import jax.numpy as jnp
+
+        jnp.zeros((2,)).block_until_ready()
+        os.sched_setaffinity(0, full)
+    except Exception:
+        pass
     from vf.core import run_property
 
     sys.exit(run_property(a.prop.upper(), a.tier, seed, a.case, a.jobs, a.replay))
